@@ -1,5 +1,5 @@
 (* Proofs/ConfigRT.v (cfg, C19) *)
-From Coq Require Import List String Bool ZArith NArith Lia DecimalString DecimalZ DecimalPos.
+From Coq Require Import List String Bool ZArith NArith Lia DecimalString DecimalZ DecimalPos Ascii.
 From MV Require Import Lib.GoJson Lib.GoJsonFacts Gen.CfgTypes Model.ConfigRT.
 Import ListNotations.
 Open Scope string_scope.
@@ -351,3 +351,79 @@ Proof.
   eexists. split; [vm_compute; reflexivity|].
   split; vm_compute; reflexivity.
 Qed.
+
+(* ================================================================================================ *)
+(* 5. path-mode file naming                                                                          *)
+(* ================================================================================================ *)
+Lemma file_name_canon max n : file_name max canon_ops n = (replace_sep (firstn_str max n) ++ ".json")%string.
+Proof. reflexivity. Qed.
+
+Lemma file_name_canon_json max n : exists p, file_name max canon_ops n = (p ++ ".json")%string.
+Proof. eexists. apply file_name_canon. Qed.
+
+Lemma str_app_length a b : String.length (a ++ b)%string = (String.length a + String.length b)%nat.
+Proof. induction a as [|c a IH]; cbn; [reflexivity|]. now rewrite IH. Qed.
+
+Lemma str_app_inv_tail s : forall a b, (a ++ s)%string = (b ++ s)%string -> a = b.
+Proof.
+  induction a as [|c a IH]; intros b H; destruct b as [|d b]; cbn in H; try reflexivity.
+  - exfalso. apply (f_equal String.length) in H. cbn in H. rewrite str_app_length in H. lia.
+  - exfalso. apply (f_equal String.length) in H. cbn in H. rewrite str_app_length in H. lia.
+  - inversion H; subst. f_equal. apply IH. assumption.
+Qed.
+
+Lemma firstn_str_length max s : (String.length (firstn_str max s) <= max)%nat.
+Proof. revert s. induction max as [|m IH]; intros s; destruct s; cbn; try lia. specialize (IH s). lia. Qed.
+Lemma replace_sep_length s : String.length (replace_sep s) = String.length s.
+Proof. induction s; cbn; congruence. Qed.
+
+Lemma file_name_canon_length max n : (String.length (file_name max canon_ops n) <= max + 5)%nat.
+Proof. rewrite file_name_canon, str_app_length, replace_sep_length. pose proof (firstn_str_length max n). cbn. lia. Qed.
+
+(* exactly when two names are kept in the same file *)
+Lemma file_name_collide_iff max a b :
+  file_name max canon_ops a = file_name max canon_ops b <-> replace_sep (firstn_str max a) = replace_sep (firstn_str max b).
+Proof.
+  rewrite !file_name_canon. split; [apply str_app_inv_tail|intros ->; reflexivity].
+Qed.
+
+Lemma firstn_str_all max s : (String.length s <= max)%nat -> firstn_str max s = s.
+Proof. revert s. induction max as [|m IH]; intros s H; destruct s; cbn in *; try reflexivity; try lia. f_equal. apply IH. lia. Qed.
+Lemma replace_sep_id s : has_sep s = false -> replace_sep s = s.
+Proof.
+  induction s as [|c s IH]; cbn; [reflexivity|]. intros H. apply orb_false_iff in H. destruct H as [Hc Hs].
+  rewrite Hc. f_equal. apply IH. exact Hs.
+Qed.
+
+(* injective on names of at most max bytes without a path separator *)
+Lemma file_name_injective_short max a b :
+  (String.length a <= max)%nat -> (String.length b <= max)%nat -> has_sep a = false -> has_sep b = false ->
+  file_name max canon_ops a = file_name max canon_ops b -> a = b.
+Proof.
+  intros Ha Hb Hsa Hsb H. apply file_name_collide_iff in H.
+  rewrite !firstn_str_all, !replace_sep_id in H by assumption. exact H.
+Qed.
+
+(* not injective in general: same first max bytes; '/' against '_' (the listed finding) *)
+Lemma file_name_not_injective :
+  (exists a b, a <> b /\ file_name 128 canon_ops a = file_name 128 canon_ops b /\ String.length a = 130%nat) /\
+  (exists a b, a <> b /\ file_name 128 canon_ops a = file_name 128 canon_ops b /\ String.length a = 3%nat).
+Proof.
+  split.
+  - exists (repeat_char "p"%char 128 ++ "-A")%string, (repeat_char "p"%char 128 ++ "-B")%string.
+    split; [intros H; apply (f_equal (fun s => substring 129 1 s)) in H; vm_compute in H; discriminate|].
+    split; vm_compute; reflexivity.
+  - exists "a/b", "a_b". split; [discriminate|]. split; vm_compute; reflexivity.
+Qed.
+
+(* the shape "append the extension, then truncate" loses the extension of a 124-byte name: the loader skips the file *)
+Lemma file_name_append_first_refuted :
+  loader_accepts (file_name 128 [FReplaceSep; FAppendJson; FTrunc] (repeat_char "a"%char 123)) = true /\
+  loader_accepts (file_name 128 [FReplaceSep; FAppendJson; FTrunc] (repeat_char "a"%char 124)) = false /\
+  loader_accepts (file_name 128 canon_ops (repeat_char "a"%char 124)) = true /\
+  loader_accepts (file_name 128 canon_ops (repeat_char "a"%char 200)) = true.
+Proof. repeat split; vm_compute; reflexivity. Qed.
+
+Lemma src_file_name_shape :
+  src_fname_ops_cluster = canon_ops /\ src_fname_ops_router = canon_ops /\ src_max_file_path = 128%nat.
+Proof. repeat split; reflexivity. Qed.
